@@ -3,7 +3,7 @@
 using namespace nix;
 using namespace vh;
 
-#define N_REJ 46
+#define N_REJ 51
 
 // each case is a call the API is expected to reject; returns normally if it was (unexpectedly) accepted
 static void attempt(World &w, uint32_t op) {
@@ -62,6 +62,12 @@ static void attempt(World &w, uint32_t op) {
     case 44: w.da2.appendAliasRangeDimension(); break;
     // out-of-range index
     case 45: w.da1.getDimension(7); break;
+    // cooperating look-alikes: an array of ANOTHER block with the same name as one of this block; UUID-shaped names
+    case 46: w.b.createMultiTag("nm", "t", w.b2_pos); break;
+    case 47: w.b.createTag(UUID_NAME, "t", {1.0}); break;
+    case 48: w.b.createDataArray(UUID_NAME, "t", DataType::Double, NDSize({2})); break;
+    case 49: w.mtag.positions(w.b2_pos); break;
+    case 50: w.tag.addReference(w.b2_pos); break;
     }
 }
 
